@@ -44,12 +44,12 @@ Definition exec_int_bop (n : Z) (mk : Z -> value) (o : binop) (a b : Z) : outcom
   | Mul => Val (mk (imul n a b))
   | Div => of_ires mk (idiv n a b)
   | Mod => of_ires mk (imod n a b)
-  | Lt => Val (VInt (ilt a b))
-  | Gt => Val (VInt (igt a b))
-  | Lte => Val (VInt (ile a b))
-  | Gte => Val (VInt (ige a b))
-  | Eq => Val (VInt (ieq a b))
-  | Neq => Val (VInt (ine a b))
+  | OLt => Val (VInt (ilt a b))
+  | OGt => Val (VInt (igt a b))
+  | OLe => Val (VInt (ile a b))
+  | OGe => Val (VInt (ige a b))
+  | OEq => Val (VInt (ieq a b))
+  | ONe => Val (VInt (ine a b))
   | BAnd => Val (mk (iand n a b))
   | BOr => Val (mk (ior n a b))
   | BXor => Val (mk (ixor n a b))
@@ -65,12 +65,12 @@ Definition exec_flt_bop (f : fmt) (mk : Z -> value) (o : binop) (a b : Z) : outc
   | Sub => Val (mk (fsub f a b))
   | Mul => Val (mk (fmul f a b))
   | Div => if fis_zero f b then Fault DivisionByZero else Val (mk (fdiv f a b))
-  | Lt => Val (VInt (flt f a b))
-  | Gt => Val (VInt (fgt f a b))
-  | Lte => Val (VInt (fle f a b))
-  | Gte => Val (VInt (fge f a b))
-  | Eq => Val (VInt (feq f a b))
-  | Neq => Val (VInt (fne f a b))
+  | OLt => Val (VInt (flt f a b))
+  | OGt => Val (VInt (fgt f a b))
+  | OLe => Val (VInt (fle f a b))
+  | OGe => Val (VInt (fge f a b))
+  | OEq => Val (VInt (feq f a b))
+  | ONe => Val (VInt (fne f a b))
   | _ => Crash EmitAssert          (* no % & | ^ << >> on floating types *)
   end.
 
